@@ -48,6 +48,7 @@ type SchedCase struct {
 	SiteSalt uint32   `json:"site_salt"`
 	PCT      []int    `json:"pct,omitempty"`
 	Preempt  []int    `json:"preempt,omitempty"` // pre-emption points inside callee code, in 1/100000 of the statements of the reference run
+	Quantum  int      `json:"quantum,omitempty"` // > 0: also pre-empt every Quantum statements
 }
 
 func genSched(rt *rapid.T) SchedCase {
@@ -58,6 +59,7 @@ func genSched(rt *rapid.T) SchedCase {
 	s.SitePct = []uint32{100, 30, 10, 0}[rapid.IntRange(0, 3).Draw(rt, "sitepct")]
 	s.SiteSalt = rapid.Uint32Range(0, 1000).Draw(rt, "sitesalt")
 	s.Preempt = rapid.SliceOfN(rapid.IntRange(0, 99999), 0, 3).Draw(rt, "preempt")
+	s.Quantum = rapid.SampledFrom([]int{0, 0, 0, 5000, 1000, 200, 50, 17}).Draw(rt, "quantum")
 	if s.Strategy == 3 {
 		n := rapid.IntRange(1, 3).Draw(rt, "npct")
 		for i := 0; i < n; i++ {
@@ -79,7 +81,7 @@ func (s SchedCase) ConfigT(maxSteps, total int) sched.Config {
 		pre = append(pre, 1+int(int64(f)*int64(total)/100000))
 	}
 	sort.Ints(pre)
-	return sched.Config{Preempt: pre, Strategy: sched.Strategy(s.Strategy), Choices: s.Choices, SchedSeed: s.Seed, SitePct: s.SitePct, SiteSalt: s.SiteSalt,
+	return sched.Config{Preempt: pre, Quantum: s.Quantum, Strategy: sched.Strategy(s.Strategy), Choices: s.Choices, SchedSeed: s.Seed, SitePct: s.SitePct, SiteSalt: s.SiteSalt,
 		PCTChanges: s.PCT, MaxSteps: maxSteps}
 }
 
